@@ -47,6 +47,14 @@ def write_pkg(root, text):
 def check(ctx):
     thorough = ctx.tier == "thorough"
     ctx.build_drv()
+    # design account of the zipper's control-flow consistency pass: with it, every total data-flow pairing of two
+    # decision trees implies equal behaviour; without it TLC finds the exchanged-arms counterexample
+    import difflib_ as dl
+    ctx.model_check(dl.DIFF_SPEC, "MC_ZipperCF", "MC_ZipperCF.cfg", timeout=1200)
+    neg = ctx.tlc(dl.DIFF_SPEC, "MC_ZipperCF", "MC_ZipperCF_norepair.cfg", timeout=900, name="zcfneg")
+    if neg["ok"]:
+        raise vlib.Inconclusive("model sensitivity: without the consistency pass ZipperCF!Sound should fail")
+    ctx.notes["model_sensitivity"] = "ZipperCF: Sound holds with the control-flow consistency pass and fails without it (exchanged if/else arms)"
     rng = random.Random(ctx.seed * 59 + 4)
     uni, edges, nat, fps = c02.build(ctx, rng, thorough, want_edits=True)
     edits = [e for e in edges if e[0] == "edit"]
